@@ -14,6 +14,7 @@ import (
 
 	"github.com/ClickHouse/ch-go"
 	"github.com/ClickHouse/ch-go/chpool"
+	"github.com/ClickHouse/ch-go/proto"
 	"github.com/anishathalye/porcupine"
 
 	"verif/internal/core"
@@ -193,6 +194,17 @@ func c11History(r *core.Run, ci int64) {
 				return []simnet.Item{{Data: simnet.PacketException([]ref.Exception{{Code: 60, Name: "DB::Exception", Message: "no table"}})}}
 			case "CUT":
 				return []simnet.Item{{EOF: true}}
+			case "CBEXC":
+				// a result of several blocks; the holder's callback gives up at the first one
+				blk := func(n int) *ref.Block {
+					b := &ref.Block{Rows: n, Info: ref.BlockInfo{Bucket: -1}, Cols: []ref.Col{{Name: "a", Type: "UInt32"}}}
+					for i := 0; i < n; i++ {
+						b.Cols[0].Vals = append(b.Cols[0].Vals, ref.Leaf([]byte{byte(i), 0, 0, 0}))
+					}
+					return b
+				}
+				return []simnet.Item{{Data: simnet.PacketData(54460, ref.ServerDataCode, blk(0), false, 0)}, {Data: simnet.PacketData(54460, ref.ServerDataCode, blk(3), false, 0)},
+					{Data: simnet.PacketData(54460, ref.ServerDataCode, blk(2), false, 0)}, {Data: simnet.PacketProgress(54460, ref.Progress{Rows: 5})}, {Data: simnet.PacketEnd()}}
 			}
 			return []simnet.Item{{Data: simnet.PacketProgress(54460, ref.Progress{Rows: 1})}, {Data: simnet.PacketEnd()}}
 		}
@@ -303,9 +315,22 @@ func c11History(r *core.Run, ci int64) {
 								body = "OK"
 							}
 							qid := fmt.Sprintf("s%d-h%d", sess, w)
-							err := c.Do(qctx, ch.Query{Body: body, QueryID: qid, Settings: []ch.Setting{{Key: "log_comment", Value: qid, Important: true}}})
+							q := ch.Query{Body: body, QueryID: qid, Settings: []ch.Setting{{Key: "log_comment", Value: qid, Important: true}}}
+							if body == "CBEXC" {
+								// the callback forwards rows elsewhere and fails with that other server's exception
+								q.Result = proto.Results{{Name: "a", Data: new(proto.ColUInt32)}}
+								q.OnResult = func(ctx context.Context, b proto.Block) error {
+									if b.Rows == 0 {
+										return nil
+									}
+									return fmt.Errorf("forward rows: %w", &ch.Exception{Code: proto.ErrUnknownTable, Name: "DB::Exception", Message: "other connection"})
+								}
+							}
+							err := c.Do(qctx, q)
 							qc()
-							if err != nil && !ch.IsException(err) {
+							if err != nil && (!ch.IsException(err) || body == "CBEXC") {
+								// a transport failure, a cancellation or a failing callback abandons the
+								// response: the connection must not be handed out again
 								closed = true
 							}
 							// the tag query is the first request of a fresh holder and the server answers it:
@@ -331,7 +356,7 @@ func c11History(r *core.Run, ci int64) {
 						}
 						sig = append(sig, "acquire")
 						for j := 0; j < wrng.Intn(3) && !closed; j++ {
-							b := []string{"OK", "OK", "EXC", "CUT", "CANCEL"}[wrng.Intn(5)]
+							b := []string{"OK", "OK", "EXC", "CUT", "CANCEL", "CBEXC"}[wrng.Intn(6)]
 							doQ(b)
 							sig = append(sig, b)
 						}
